@@ -102,6 +102,41 @@ def run_case(case):
 			got = [[_bits(x) for x in row] for row in res]
 			if got != exp or res.shape != (nq, len(cols)) or res.dtype != np.float32:
 				problems.append('cells differ')
+		elif kind == 'mutating':
+			# ONE SignatureList object used for several bulk calls, modified in between (same length): every call must see its current content
+			from gambit.sigs import SignatureList
+			S = SignatureList(list(refs), ks)
+			cur = list(refs)
+			q = queries[0] if queries else sig()
+			for step in range(case.get('steps', 4)):
+				op = rnd.choice(['set', 'reverse', 'swap', 'none', 'inplace']) if step else 'none'
+				if nr:
+					if op == 'set':
+						j = rnd.randrange(nr)
+						S[j] = cur[j] = sig()
+					elif op == 'reverse':
+						S.reverse()
+						cur.reverse()
+					elif op == 'swap' and nr > 1:
+						a_, b_ = rnd.sample(range(nr), 2)
+						S[a_], S[b_] = S[b_], S[a_]
+						cur[a_], cur[b_] = cur[b_], cur[a_]
+					elif op == 'inplace':
+						j = rnd.randrange(nr)
+						if len(cur[j]):
+							new = sig()
+							m_ = min(len(new), len(cur[j]))
+							if m_ and len(new) >= len(cur[j]):
+								cur[j][:] = new[:len(cur[j])]      # the array object stored in the list is edited in place
+				fn = rnd.choice(['array', 'matrix', 'matrix-chunked'])
+				if fn == 'array':
+					got = [_bits(x) for x in jaccarddist_array(q, S)]
+				else:
+					got = [_bits(x) for x in jaccarddist_matrix([q], S, chunksize=2 if fn.endswith('chunked') else None)[0]]
+				exp = [D(q, r) for r in cur]
+				if got != exp:
+					problems.append(f'call {step} after {op}: cells differ from the current content of the list')
+					break
 		elif kind == 'pairwise':
 			idx = case.get('indices')
 			S = _mk(case.get('refs', 'array'), refs, ks, tmp)
@@ -153,6 +188,8 @@ def cases(tier, seed):
 		yield {'kind': 'matrix', 'nq': nq, 'nr': nr, 'refs': rnd.choice(conts), 'queries': rnd.choice(['plain', 'list', 'array']),
 		       'ref_indices': idx, 'chunksize': rnd.choice([None, 1, 2, 3, max(ncols, 1), ncols + 1, 1000]), 'out': rnd.choice([None, 'given']),
 		       'threads': rnd.choice([None, 1, 3, 16]), 'seed': rnd.randrange(10 ** 6)}
+		if i % 5 == 0:
+			yield {'kind': 'mutating', 'nq': 1, 'nr': rnd.choice([1, 3, 6]), 'steps': 5, 'seed': rnd.randrange(10 ** 6), 'dtype': rnd.choice(['u2', 'i4'])}
 		pidx = None
 		if rnd.random() < .4 and nr:
 			pidx = [rnd.randrange(nr) for _ in range(rnd.choice([0, 1, 2, nr, nr + 2]))]
